@@ -32,6 +32,15 @@ pub struct ContextHandle {
 }
 
 impl ContextHandle {
+    /// Verification hook (only with `--cfg poster_verif`): presets the packet and subscription
+    /// identifier counters, to start next to their wrap-around.
+    ///
+    #[cfg(poster_verif)]
+    pub fn verif_set_ids(&self, packet_id: u16, sub_id: u32) {
+        self.packet_id.store(packet_id, Ordering::Relaxed);
+        self.sub_id.store(sub_id, Ordering::Relaxed);
+    }
+
     /// Performs graceful disconnection with the broker by sending the
     /// [Disconnect](https://docs.oasis-open.org/mqtt/mqtt/v5.0/os/mqtt-v5.0-os.html#_Toc3901205) packet.
     ///
